@@ -1,5 +1,6 @@
 import BinlogVerif.Reader.Filter
 import BinlogVerif.Reader.Bread
+import BinlogVerif.Reader.Recovery
 /-
   Line-protocol glue for the reader family: canonical text of model results, so that the C++
   harness (running the real code) and the Lean driver (running the model) can be diffed.
@@ -168,5 +169,11 @@ def cmdTime (dateFmt : Bytes) (cs : ClockSync) (clock : Nat) : String :=
 def cmdBread (sorted : Bool) (fmt dateFmt file : Bytes) : String :=
   let (text, err) := Bread.run sorted fmt dateFmt file
   s!"text={hex text} err={match err with | some e => e.code | none => "-"}"
+
+/-- `recover <image hex>` -/
+def cmdRecover (image : Bytes) : String :=
+  match Recovery.recover image with
+  | .ok out => s!"out={hex out}"
+  | .error e => s!"out=ERR:{e.code}"
 
 end BinlogVerif.Proto
